@@ -1,0 +1,57 @@
+//go:build verif
+
+package conn
+
+import (
+	"github.com/tendermint/tendermint/libs/log"
+	"github.com/tendermint/tendermint/libs/timer"
+	tmp2p "github.com/tendermint/tendermint/proto/tendermint/p2p"
+)
+
+// Thin accessors for the verification harness (/verif, property C17). Add-only; with the build
+// tag off this file does not exist for the compiler.
+
+// VerifPrepareUnstarted makes an MConnection that was never started usable for direct calls of
+// sendPacketMsg (which touches the flush timer) and of the channels (which log).
+func (c *MConnection) VerifPrepareUnstarted() {
+	c.SetLogger(log.NewNopLogger())
+	c.flushTimer = timer.NewThrottleTimer("flush", c.config.FlushThrottle)
+}
+
+// VerifRelease stops the timer created by VerifPrepareUnstarted.
+func (c *MConnection) VerifRelease() {
+	if c.flushTimer != nil {
+		c.flushTimer.Stop()
+	}
+}
+
+// VerifTrySend is TrySend without the IsRunning guard (channel lookup + trySendBytes).
+func (c *MConnection) VerifTrySend(chID byte, msgBytes []byte) bool {
+	channel, ok := c.channelsIdx[chID]
+	if !ok {
+		return false
+	}
+	return channel.trySendBytes(msgBytes)
+}
+
+// VerifSendPacketMsg calls sendPacketMsg and flushes the buffered writer into the conn.
+func (c *MConnection) VerifSendPacketMsg() (exhausted bool) {
+	exhausted = c.sendPacketMsg()
+	_ = c.bufConnWriter.Flush()
+	return exhausted
+}
+
+// VerifMaxPacketMsgSize returns the cached maximum encoded packet size.
+func (c *MConnection) VerifMaxPacketMsgSize() int { return c._maxPacketMsgSize }
+
+// VerifChannel returns the channel with the given id (nil if unknown).
+func (c *MConnection) VerifChannel(chID byte) *Channel { return c.channelsIdx[chID] }
+
+func (ch *Channel) VerifIsSendPending() bool            { return ch.isSendPending() }
+func (ch *Channel) VerifNextPacketMsg() tmp2p.PacketMsg { return ch.nextPacketMsg() }
+func (ch *Channel) VerifSendQueueSize() int             { return ch.loadSendQueueSize() }
+func (ch *Channel) VerifCanSend() bool                  { return ch.canSend() }
+func (ch *Channel) VerifRecvLen() int                   { return len(ch.recving) }
+func (ch *Channel) VerifRecvPacketMsg(p tmp2p.PacketMsg) ([]byte, error) {
+	return ch.recvPacketMsg(p)
+}
